@@ -118,7 +118,7 @@ class Interp:
                 ctx.logger.info(st["msg"])
                 continue
             if op == "pad":
-                obs.append("~" * st["n"])
+                obs.append(st.get("ch", "~") * st["n"])
                 continue
             if op == "cbres":
                 cb = slots[st["slot"]]
@@ -176,8 +176,19 @@ class Interp:
                     self.trace.append(["deliver", pos, {"ok": "cb" if cb.callback_id == want else "cb?" + str(cb.callback_id)}])
                     continue
                 elif op == "invoke":
-                    v = ctx.invoke("target-fn", VALUE_POOL.get(st["payload"], st["payload"]), name=name)
-                    tok = token_of(v)
+                    from aws_durable_execution_sdk_python.config import InvokeConfig
+                    from aws_durable_execution_sdk_python.serdes import JsonSerDes
+
+                    class PayloadOnly(JsonSerDes):      # wire-identical to the default; each direction is legal for one side only
+                        def deserialize(self, data, c):
+                            raise AssertionError("the payload serdes was asked to read a result")
+
+                    class ResultOnly(JsonSerDes):
+                        def serialize(self, value, c):
+                            raise AssertionError("the result serdes was asked to write a payload")
+                    v = ctx.invoke("target-fn", VALUE_POOL.get(st["payload"], st["payload"]), name=name,
+                                   config=InvokeConfig(serdes_payload=PayloadOnly(), serdes_result=ResultOnly()))
+                    tok = "" if v == "" and isinstance(v, str) else token_of(v)
                 elif op == "wfc":
                     check_t, decide_t = st["check"], st["decide"]
 
